@@ -84,3 +84,22 @@ Section Graph.
     | _ => false
     end.
 End Graph.
+
+(* ---- `from pkg import sub`: which object does the host program get? ---------------------------
+   CPython returns the attribute  pkg.sub  when it exists and imports the submodule otherwise.  The
+   attribute is set (a) by the import machinery to the submodule whenever pkg.sub finishes
+   importing, (b) by the body of pkg/__init__ when it binds the NAME sub (explicit or star import,
+   def, class, assignment).  [body] = what the package body binds the name to (None: it does not
+   bind it; Some t: the module with id t, 0 = not a module); [after] = the submodule was imported
+   after the package body ran (any import history). *)
+Definition from_import (body : option N) (after : bool) (sub : N) : N :=
+  if after then sub else match body with Some t => t | None => sub end.
+
+Definition lookup_binding (b : list (N * N * N)) (p n : N) : option N :=
+  match find (fun x => N.eqb (fst (fst x)) p && N.eqb (snd (fst x)) n) b with
+  | Some x => Some (snd x) | None => None end.
+
+(* no name bound by a package body hides a submodule file of that package behind another object *)
+Definition no_shadow_b (bindings files : list (N * N * N)) : bool :=
+  forallb (fun f => match lookup_binding bindings (fst (fst f)) (snd (fst f)) with
+                    | Some t => N.eqb t (snd f) | None => true end) files.
